@@ -91,6 +91,51 @@ def check(rep: Report, ctx: Ctx) -> None:
             g = _copy.copy(f)
             g.node = stripped
             plain[f.qualname] = g
+    # state remembered between calls through `global` names (a one-entry
+    # memo): the remembered key and the remembered value must change
+    # together - a statement that can raise between the two stores leaves
+    # them out of step, and every later call that hits the stale key gets
+    # the value of another instant (seed C16-z)
+    for f in (to_ns, to_str, fmt_fn):
+        gl = {n for st in ast.walk(f.node) if isinstance(st, ast.Global)
+              for n in st.names}
+        if not gl:
+            continue
+        order = [st for st in ast.walk(f.node) if isinstance(st, ast.stmt)]
+        order.sort(key=lambda st: (st.lineno, st.col_offset))
+        stores = [(i, st) for i, st in enumerate(order) if isinstance(
+            st, (ast.Assign, ast.AugAssign, ast.AnnAssign)) and any(
+            isinstance(n, ast.Name) and isinstance(n.ctx, ast.Store)
+            and n.id in gl for n in ast.walk(st))]
+        written = {n.id for _, st in stores for n in ast.walk(st)
+                   if isinstance(n, ast.Name) and isinstance(n.ctx, ast.Store)
+                   and n.id in gl}
+        between = []
+        if len(written) >= 2:
+            lo, hi = stores[0][0], stores[-1][0]
+            inner = {id(x) for _, st in stores for x in ast.walk(st)}
+            between = [st for st in order[lo + 1:hi + 1]
+                       if id(st) not in inner
+                       and not isinstance(st, (ast.If, ast.For, ast.While,
+                                               ast.Try, ast.With))
+                       and any(isinstance(c, ast.Call) for c in ast.walk(st))]
+            between += [st for _, st in stores[1:]
+                        if any(isinstance(c, ast.Call) for c in ast.walk(st))]
+        ok = not between
+        rep.ob("R16.4", f"{f.name}: values remembered between calls "
+               f"({', '.join(sorted(written)) or 'none written'}) are updated "
+               "together", ok, fi=f,
+               node=between[0] if between else f.node,
+               detail=("no statement that can raise separates the stores"
+                       if ok else
+                       f"'{unparse(between[0])[:70]}' can raise after "
+                       f"'{unparse(stores[0][1])[:50]}' was stored and before "
+                       "the last remembered name is: a rejected timestamp "
+                       "leaves key and value out of step, and the next "
+                       "inputs with that key are converted with another "
+                       "instant's value"))
+        if not ok:
+            broken_memo.add(f.qualname)
     if to_ns.qualname in broken_memo or to_str.qualname in broken_memo:
         # the conversions are not functions of their argument: the component
         # accounting below is not evaluated
